@@ -363,8 +363,8 @@ func (d dissecting) Summarize(entry *api.Entry) *api.BaseEntry {
 
 func (d dissecting) Represent(request map[string]interface{}, response map[string]interface{}) (object []byte, err error) {
 	representation := make(map[string]interface{})
-	var repRequest []interface{}
-	var repResponse []interface{}
+	repRequest := make([]interface{}, 0)
+	repResponse := make([]interface{}, 0)
 
 	switch request["method"].(string) {
 	case basicMethodMap[40]:
